@@ -162,12 +162,19 @@ def run(rep: Report, tier: str) -> None:  # noqa: C901
         def __init__(self, cls_: str, sig: str) -> None:
             self._cls, self.signature_type, self.name = cls_, sig, "rs_1"
 
+    class _Text(str):
+        """the rendered text, remembering what was rendered: any edit of it yields a plain str"""
+        node: Any = None
+        opts: Any = ()
+
     class _Renderer:
         def __init__(self, **kw: Any) -> None:
             self.kw = kw
 
         def render(self, ast: Any = None, **kw: Any) -> Any:  # noqa: A002
-            return ("RENDERED", ast, tuple(sorted(self.kw.items())))
+            r = _Text("define  ruleset \"a  b\"\n\t(x)")
+            r.node, r.opts = ast, tuple(sorted(self.kw.items()))
+            return r
     for kind, cls_ in (("datapoint", "DPRuleset"), ("hierarchical", "HRuleset")):
         for sig in sorted(sig_texts):
             node = _Node(cls_, sig)
@@ -185,7 +192,7 @@ def run(rep: Report, tier: str) -> None:  # noqa: C901
             if got.get("ruleset_scope") != sig:
                 rep.add(_finding("R25.2", "ruleset_scope", gr, gr.node.lineno, f"a ruleset whose signature is `{sig}` is given ruleset_scope={got.get('ruleset_scope')!r} (grammar texts {sorted(sig_texts)})"))
             rd = got.get("ruleset_definition")
-            if not (isinstance(rd, tuple) and rd[0] == "RENDERED" and rd[1] is node and not any(k == "pretty" and v for k, v in rd[2])):
+            if not (isinstance(rd, _Text) and rd.node is node and not any(k == "pretty" and v for k, v in rd.opts)):
                 rep.add(_finding("R25.2", "__generate_ruleset/ruleset_definition", gr, gr.node.lineno, f"ruleset_definition is not the compact rendering of the whole definition node (it is `{rd!r}`)"))
             if got.get("id") != "R7":
                 rep.add(_finding("R25.2", "ruleset_id", gr, gr.node.lineno, f"the ruleset numbered 7 gets the id {got.get('id')!r}"))
